@@ -7,7 +7,7 @@ import check as C
 ex, woven, info, path = C.build_wrappers()
 print('woven', path, woven.count('\n'))
 PY
-cd /verif/build && verus snow_wrappers.rs --cfg 'feature="std"' --cfg 'feature="default-resolver"' --cfg 'feature="use-curve25519"' --cfg 'feature="use-chacha20poly1305"' --cfg 'feature="use-xchacha20poly1305"' --cfg 'feature="use-aes-gcm"' --cfg 'feature="use-sha2"' --cfg 'feature="use-blake2"' --triggers-mode silent --multiple-errors 30 "$@" 2>&1 | python3 -c "
+cd /verif/build && verus snow_wrappers.rs --cfg 'feature="std"' --cfg 'feature="default-resolver"' --cfg 'feature="use-curve25519"' --cfg 'feature="use-chacha20poly1305"' --cfg 'feature="use-xchacha20poly1305"' --cfg 'feature="use-aes-gcm"' --cfg 'feature="use-sha2"' --cfg 'feature="use-blake2"' --cfg 'feature="p256"' --triggers-mode silent --multiple-errors 30 "$@" 2>&1 | python3 -c "
 import sys,re
 lines=sys.stdin.read().split('\n')
 i=0
